@@ -23,6 +23,7 @@ type callTarget struct {
 	contract *Contract
 	sig      *types.Signature
 	name     string // display name
+	nilRecv  Term   // for interface method calls: receiver interface is nil
 	args     []Val  // receiver first
 	iface    bool
 }
@@ -38,6 +39,7 @@ func (e *Engine) resolveCall(st *State, c *ssa.CallCommon) callTarget {
 		}
 		t.name = c.Method.Name()
 		t.iface = true
+		t.nilRecv = Eq(recv.L[0], I(0))
 		// statically known dynamic type?
 		if n, ok := recv.L[0].IntLit(); ok && n.Sign() != 0 {
 			if dt := e.typeOfTag(n.Int64()); dt != nil {
@@ -133,6 +135,12 @@ func (e *Engine) callResolved(st *State, in ssa.Instruction, t callTarget, k fun
 	if in != nil {
 		pos = in.Pos()
 	}
+	if t.nilRecv.S != "" && in != nil {
+		st.oblige(in, "nil", Not(t.nilRecv), "method call "+t.name+" on a nil interface value")
+		if st.dead {
+			return
+		}
+	}
 	// hooks before the call
 	e.runHooks(st, in, t, false)
 	if st.dead {
@@ -146,7 +154,7 @@ func (e *Engine) callResolved(st *State, in ssa.Instruction, t callTarget, k fun
 		}
 	}
 	st.event(evName, pos, evArgs...)
-	if tc := st.ctx.contract; tc != nil && tc.Pure && in != nil {
+	if tc := st.ctx.contract; tc != nil && tc.Det && in != nil {
 		ok := e.isDeterministic(t)
 		if !ok {
 			st.oblige(in, "det", TFalse, "call of "+t.name+" in a function declared deterministic: callee has no `det` contract")
@@ -178,7 +186,7 @@ func (e *Engine) callResolved(st *State, in ssa.Instruction, t callTarget, k fun
 
 func (e *Engine) isDeterministic(t callTarget) bool {
 	if t.contract != nil {
-		return t.contract.Pure || t.contract.Inline
+		return t.contract.Det || t.contract.Inline
 	}
 	if t.closure != nil {
 		return true // inlined: its own calls are checked
@@ -283,8 +291,12 @@ func (e *Engine) applyContract(st *State, in ssa.Instruction, t callTarget, k fu
 		}
 	}
 	old := st.clone()
+	st.curInstr = in
+	defer func() { st.curInstr = nil }()
+	oldF, oldN := st.bumpFrontier()
+	st.callFresh = nil
 	// frame
-	if c.ModifiesAll || (len(c.Modifies) == 0 && !c.Pure) {
+	if c.ModifiesAll || (len(c.Modifies) == 0 && !c.Pure && len(c.Callsback) == 0) {
 		// no frame given: everything reachable from the arguments may change
 		e.havocReachable(st, t.args)
 	}
@@ -293,19 +305,16 @@ func (e *Engine) applyContract(st *State, in ssa.Instruction, t callTarget, k fu
 			st.bindFail(fmt.Sprintf("%s#modifies[%s]", funcKey(st.fr.fn), t.name), err)
 		}
 	}
+	if len(c.Callsback) > 0 {
+		e.callsbackFrame(st, in, t, c)
+	}
 	// result
 	rt := resultType(t.sig)
 	res := st.freshVal(rt, st.ctx.freshName("r!"+t.name))
-	if c.Fresh {
-		ref := st.newRef()
-		if res.Tup != nil {
-			st.assume(Eq(res.Tup[0].L[0], ref))
-		} else if len(res.L) > 0 {
-			st.assume(Eq(res.L[0], ref))
-		}
-	}
+	st.boundRefs(res)
 	env2 := e.contractEnv(st, t, old)
 	env2.callSite = true
+	env2.freshLo = Add(oldF, I(int64(oldN)))
 	if res.Tup != nil {
 		env2.results = res.Tup
 	} else if len(res.L) > 0 || rt != nil {
@@ -354,12 +363,41 @@ func (e *Engine) havocLocation(st *State, env *SpecEnv, m Clause) (err error) {
 		if !ok {
 			return fmt.Errorf("elems() of non-slice")
 		}
+		if st.curInstr != nil {
+			st.frameCheck(st.curInstr, &PtrInfo{Kind: pkElem, Root: sl.Elem(), Ref: v.L[0], Idx: I(0)})
+		}
 		for _, l := range leavesOf(sl.Elem()) {
 			key := elemKey(sl.Elem(), l.Path)
 			h := st.heapTerm(key, l.Sort, true)
 			st.setHeap(key, Store(h, v.L[0], st.ctx.freshConst("hv!elems", arrSort(l.Sort))))
 			st.tainted[key] = true
 		}
+		return nil
+	}
+	if strings.HasPrefix(txt, "state(") {
+		// everything reachable from the (dynamic) value of an interface or pointer
+		inner, perr := parseSpecExpr(txt[6 : len(txt)-1])
+		if perr != nil {
+			return perr
+		}
+		v := env.eval(inner)
+		e.havocState(st, v)
+		return nil
+	}
+	if strings.HasPrefix(txt, "g_") {
+		k := strings.Index(txt, "(")
+		inner, perr := parseSpecExpr(txt[k+1 : len(txt)-1])
+		if perr != nil {
+			return perr
+		}
+		v := env.eval(inner)
+		idx := v.L[len(v.L)-1]
+		if _, isSl := v.T.Underlying().(*types.Slice); isSl {
+			idx = v.L[0]
+		}
+		key := "G#" + txt[2:k]
+		h := st.heapTerm(key, SInt, false)
+		st.setHeap(key, Store(h, idx, st.ctx.freshConst("hv!ghost", SInt)))
 		return nil
 	}
 	if strings.HasPrefix(txt, "map(") {
@@ -388,8 +426,61 @@ func (e *Engine) havocLocation(st *State, env *SpecEnv, m Clause) (err error) {
 	}
 	_, _, t := pathRange(pv.P.Root, pv.P.Path)
 	fresh := st.freshVal(t, st.ctx.freshName("hv!mod"))
+	st.boundRefs(fresh)
+	if st.curInstr != nil {
+		st.frameCheck(st.curInstr, pv.P)
+	}
 	st.storePtr(pv.P, fresh)
 	return nil
+}
+
+// callsbackFrame: the callee only acts through the listed methods of its first
+// (interface) argument; its frame is the union of those methods' frames.
+func (e *Engine) callsbackFrame(st *State, in ssa.Instruction, t callTarget, c *Contract) {
+	if len(t.args) == 0 {
+		return
+	}
+	a := t.args[0]
+	var dt types.Type
+	if _, isIf := a.T.Underlying().(*types.Interface); isIf && len(a.L) == 2 {
+		if n, ok := a.L[0].IntLit(); ok && n.Sign() != 0 {
+			dt = e.typeOfTag(n.Int64())
+		}
+	}
+	if dt == nil {
+		e.havocReachable(st, t.args)
+		return
+	}
+	recv := st.unbox(dt, a.L[1])
+	for _, mn := range c.Callsback {
+		var fn *ssa.Function
+		ms := e.prog.MethodSets.MethodSet(dt)
+		for i := 0; i < ms.Len(); i++ {
+			if ms.At(i).Obj().Name() == mn {
+				fn = e.prog.MethodValue(ms.At(i))
+			}
+		}
+		var mc *Contract
+		if fn != nil {
+			mc = e.specs.lookup(fn)
+		}
+		if mc == nil || (len(mc.Modifies) == 0 && !mc.Pure) {
+			st.ctx.note("callback %s of %s has no frame: everything reachable from the receiver is havocked", mn, c.Key)
+			e.havocReachable(st, []Val{recv})
+			continue
+		}
+		ct := callTarget{fn: fn, contract: mc, sig: fn.Signature, name: mn}
+		ct.args = append(ct.args, recv)
+		for i := 1; i < len(fn.Params); i++ {
+			ct.args = append(ct.args, st.freshVal(fn.Params[i].Type(), st.ctx.freshName("cb!"+mn)))
+		}
+		env := e.contractEnv(st, ct, nil)
+		for _, m := range mc.Modifies {
+			if err := e.havocLocation(st, env, m); err != nil {
+				st.bindFail(fmt.Sprintf("%s#modifies[%s]", funcKey(st.fr.fn), mn), err)
+			}
+		}
+	}
 }
 
 func (e *Engine) havocMap(st *State, m Val) {
@@ -407,6 +498,67 @@ func (e *Engine) havocMap(st *State, m Val) {
 		key := vk(l.Path)
 		h := st.heapTerm(key, l.Sort, true)
 		st.setHeap(key, Store(h, m.L[0], st.ctx.freshConst("hv!mval", arrSort(l.Sort))))
+	}
+}
+
+// havocState havocs what the dynamic value behind v may reach. For an interface
+// of unknown dynamic type: every named type of the loaded /repo packages that
+// implements it.
+func (e *Engine) havocState(st *State, v Val) {
+	it, isIf := v.T.Underlying().(*types.Interface)
+	if !isIf {
+		e.havocReachable(st, []Val{v})
+		return
+	}
+	if n, ok := v.L[0].IntLit(); ok {
+		if n.Sign() != 0 {
+			if dt := e.typeOfTag(n.Int64()); dt != nil {
+				e.havocReachable(st, []Val{{T: dt, L: []Term{v.L[1]}}})
+			}
+		}
+		return
+	}
+	var vals []Val
+	for path, sp := range e.pkgs {
+		if !strings.HasPrefix(path, repoMod) {
+			continue
+		}
+		for _, name := range sp.Pkg.Scope().Names() {
+			tn, ok := sp.Pkg.Scope().Lookup(name).(*types.TypeName)
+			if !ok || tn.IsAlias() {
+				continue
+			}
+			if _, isI := tn.Type().Underlying().(*types.Interface); isI {
+				continue
+			}
+			pt := types.NewPointer(tn.Type())
+			if types.Implements(pt, it) || types.Implements(tn.Type(), it) {
+				vals = append(vals, Val{T: pt, L: []Term{I(0)}})
+			}
+		}
+	}
+	e.havocReachable(st, vals)
+}
+
+// boundRefs: references coming out of a call denote objects that exist now.
+func (st *State) boundRefs(v Val) {
+	if v.Tup != nil {
+		for _, e := range v.Tup {
+			st.boundRefs(e)
+		}
+		return
+	}
+	if v.T == nil {
+		return
+	}
+	ls := leavesOfSafe(v.T)
+	if len(ls) != len(v.L) {
+		return
+	}
+	for i, l := range ls {
+		if l.Role == "ref" || l.Role == "arr" {
+			st.assume(Le(v.L[i], st.frontierTerm()))
+		}
 	}
 }
 
@@ -487,6 +639,15 @@ func (e *Engine) havocReachable(st *State, args []Val) {
 		if a.T == nil {
 			continue
 		}
+		if _, isIf := a.T.Underlying().(*types.Interface); isIf && len(a.L) == 2 {
+			// interface whose dynamic type is statically known: what that value reaches may change
+			if n, ok := a.L[0].IntLit(); ok && n.Sign() != 0 {
+				if dt := e.typeOfTag(n.Int64()); dt != nil {
+					reachableKeys(dt, seen, keys, false)
+				}
+			}
+			continue
+		}
 		if a.P != nil && a.P.Kind == pkCell {
 			// pointer to a local cell passed out: havoc the addressed part
 			_, off, n, t := st.ptrLeaves(a.P)
@@ -523,9 +684,7 @@ func (e *Engine) havocReachable(st *State, args []Val) {
 	}
 	sort.Strings(ks)
 	for _, k := range ks {
-		if _, touched := st.heap[k]; touched {
-			st.havocKey(k)
-		}
+		st.havocKey(k)
 		if st.dry != nil {
 			st.dry.keys[k] = true
 		}
@@ -538,12 +697,14 @@ func (e *Engine) opaque(st *State, in ssa.Instruction, t callTarget, k func(*Sta
 		name = fullName(t.fn)
 	}
 	pure := e.isPureName(name)
+	st.bumpFrontier()
 	if !pure {
 		st.ctx.note("opaque call (no contract; arguments' reachable heap havocked, result unconstrained): %s", name)
 		e.havocReachable(st, t.args)
 	}
 	rt := resultType(t.sig)
 	res := st.freshVal(rt, st.ctx.freshName("ex!"+t.name))
+	st.boundRefs(res)
 	e.nonNilResults(st, name, res)
 	k(st, res)
 }
@@ -844,12 +1005,13 @@ func (st *State) shifted(a Term, off Term, elemSort string) Term {
 	if n, ok := off.IntLit(); ok && n.Sign() == 0 {
 		return a
 	}
-	f := st.ctx.declareFun("shift!"+elemSort, []string{arrSort(elemSort), SInt}, arrSort(elemSort))
+	f := st.ctx.declareFun("sf!shift"+elemSort, []string{arrSort(elemSort), SInt}, arrSort(elemSort))
 	t := Term{fmt.Sprintf("(%s %s %s)", f, a.S, off.S), arrSort(elemSort)}
 	key := "shiftax!" + elemSort
 	if !st.ctx.declSet[key] {
 		st.ctx.declSet[key] = true
-		st.ctx.decls = append(st.ctx.decls, fmt.Sprintf("(assert (forall ((a %s) (o Int) (i Int)) (! (= (select (%s a o) i) (select a (+ i o))) :pattern ((select (%s a o) i)))))", arrSort(elemSort), f, f))
+		txt := fmt.Sprintf("(assert (forall ((a %s) (o Int) (i Int)) (! (= (select (%s a o) i) (select a (+ i o))) :pattern ((select (%s a o) i)))))", arrSort(elemSort), f, f)
+		st.ctx.axioms = append(st.ctx.axioms, axiomText{name: "shift" + elemSort, text: txt, syms: []string{f}, src: "a reallocated backing array holds the old elements re-based at 0"})
 	}
 	return t
 }
@@ -991,8 +1153,152 @@ func (e *Engine) doSelect(st *State, in *ssa.Select, k func(*State)) {
 // ---------------------------------------------------------------------------
 // frame checks (writes must stay inside the function's modifies clause)
 
-func (st *State) frameCheck(in ssa.Instruction, p *PtrInfo)   {}
-func (st *State) frameCheckMap(in ssa.Instruction, m Val)       {}
+type frameLoc struct {
+	kind string // heap | elem | map | ghost
+	root string // type key of the root (heap), element type (elem), map type (map), ghost name
+	path []int
+	ref  Term
+}
+
+// frameLocs evaluates the modifies clause of the function under verification in its entry state.
+func (st *State) frameLocs() []frameLoc {
+	c := st.ctx.contract
+	if st.ctx.frameDone {
+		return st.ctx.frame
+	}
+	st.ctx.frameDone = true
+	ent := st.entry
+	if ent == nil {
+		ent = st
+	}
+	// evaluate in the entry state with the top frame's parameters
+	top := st.fr
+	for top.parent != nil {
+		top = top.parent
+	}
+	es := ent.clone()
+	es.entry = nil
+	es.fr = top.clone()
+	env := es.specEnv("modifies")
+	for _, m := range c.Modifies {
+		func() {
+			defer func() {
+				if r := recover(); r != nil {
+					switch x := r.(type) {
+					case specError:
+						st.ctx.frameErr = append(st.ctx.frameErr, m.Text+": "+x.msg)
+					case unsupported:
+						st.ctx.frameErr = append(st.ctx.frameErr, m.Text+": "+x.msg)
+					default:
+						panic(r)
+					}
+				}
+			}()
+			txt := strings.TrimSpace(m.Text)
+			switch {
+			case strings.HasPrefix(txt, "elems("):
+				ex, err := parseSpecExpr(txt[6 : len(txt)-1])
+				if err != nil {
+					specFail("%v", err)
+				}
+				v := env.eval(ex)
+				sl := v.T.Underlying().(*types.Slice)
+				st.ctx.frame = append(st.ctx.frame, frameLoc{kind: "elem", root: typeKey(sl.Elem()), ref: v.L[0]})
+			case strings.HasPrefix(txt, "map("):
+				ex, err := parseSpecExpr(txt[4 : len(txt)-1])
+				if err != nil {
+					specFail("%v", err)
+				}
+				v := env.eval(ex)
+				st.ctx.frame = append(st.ctx.frame, frameLoc{kind: "map", root: typeKey(v.T.Underlying()), ref: v.L[0]})
+			case strings.HasPrefix(txt, "g_"):
+				k := strings.Index(txt, "(")
+				ex, err := parseSpecExpr(txt[k+1 : len(txt)-1])
+				if err != nil {
+					specFail("%v", err)
+				}
+				v := env.eval(ex)
+				st.ctx.frame = append(st.ctx.frame, frameLoc{kind: "ghost", root: txt[2:k], ref: v.L[len(v.L)-1]})
+			default:
+				src := "&(" + txt + ")"
+				if strings.HasPrefix(txt, "*") {
+					src = txt[1:]
+				}
+				ex, err := parseSpecExpr(src)
+				if err != nil {
+					specFail("%v", err)
+				}
+				v := env.eval(ex)
+				if v.P == nil {
+					specFail("not a location")
+				}
+				st.ctx.frame = append(st.ctx.frame, frameLoc{kind: "heap", root: typeKey(v.P.Root), path: v.P.Path, ref: v.P.Ref})
+			}
+		}()
+	}
+	return st.ctx.frame
+}
+
+func (st *State) strictFrame() bool {
+	c := st.ctx.contract
+	return c != nil && (c.Pure || len(c.Modifies) > 0) && st.dry == nil
+}
+
+func isFreshRef(t Term) bool { return strings.HasPrefix(t.S, "(+ A0 ") || strings.HasPrefix(t.S, "(+ B!") }
+
+func pathHasPrefix(p, prefix []int) bool {
+	if len(prefix) > len(p) {
+		return false
+	}
+	for i := range prefix {
+		if p[i] != prefix[i] {
+			return false
+		}
+	}
+	return true
+}
+
+// frameCheck: a heap write in a function with a declared frame must hit a
+// declared location or an object allocated by this invocation.
+func (st *State) frameCheck(in ssa.Instruction, p *PtrInfo) {
+	if !st.strictFrame() || p.Kind == pkCell || isFreshRef(p.Ref) {
+		return
+	}
+	a0 := Term{"A0", SInt}
+	goal := Gt(p.Ref, a0)
+	for _, l := range st.frameLocs() {
+		switch {
+		case p.Kind == pkHeap && l.kind == "heap" && l.root == typeKey(p.Root) && pathHasPrefix(p.Path, l.path):
+			goal = Or(goal, Eq(p.Ref, l.ref))
+		case p.Kind == pkElem && l.kind == "elem" && l.root == typeKey(p.Root):
+			goal = Or(goal, Eq(p.Ref, l.ref))
+		}
+	}
+	st.frameBind(in)
+	st.oblige(in, "frame", goal, "write stays inside the function's declared frame (modifies clause) or hits a fresh object")
+}
+
+func (st *State) frameBind(in ssa.Instruction) {
+	for _, e := range st.ctx.frameErr {
+		st.obligeNamed(funcKey(st.ctx.fn)+"#bind[modifies]", "bind", "", TFalse, "modifies clause does not bind: "+e)
+	}
+	st.ctx.frameErr = nil
+}
+
+func (st *State) frameCheckMap(in ssa.Instruction, m Val) {
+	if !st.strictFrame() || isFreshRef(m.L[0]) {
+		return
+	}
+	a0 := Term{"A0", SInt}
+	goal := Gt(m.L[0], a0)
+	for _, l := range st.frameLocs() {
+		if l.kind == "map" && l.root == typeKey(m.T.Underlying()) {
+			goal = Or(goal, Eq(m.L[0], l.ref))
+		}
+	}
+	st.frameBind(in)
+	st.oblige(in, "frame", goal, "map write stays inside the declared frame or hits a fresh map")
+}
 func (e *Engine) hookAllocBound(st *State, in ssa.Instruction, ln, cp Term) {
 	c := st.fr.contract
 	if c == nil {
